@@ -954,21 +954,35 @@ func plaintextProvenance(c *Ctx, rule string) int {
 				o := c.bad(rule, fname, what, pos, why)
 				o.Path = t.pathDesc(c.P)
 			}
-			rc, ok := child.(*CallV)
-			if !ok || shortName(rc.Callee) != "(*etree.Document).Root" || len(rc.Args) != 1 {
-				fail("decryptAssertions adds " + ap(child) + " to the tree, which is not the root of a freshly parsed document")
-				continue
-			}
-			var parse, dec *Event
-			for _, u := range t.St.events {
-				if u.Kind == EvCall && u.Seq < e.Seq && shortName(u.Callee) == "parseResponse" && len(u.Res) > 0 && u.Res[0].Key() == rc.Args[0].Key() {
-					parse = u
+			// the parse helper's call behind the added element: its root result, Root() of its document result, or the
+			// fields of a small result struct (provOf's vocabulary)
+			var pc *CallV
+			var find func(v Val, depth int)
+			find = func(v Val, depth int) {
+				if depth > 3 || pc != nil {
+					return
+				}
+				switch x := v.(type) {
+				case *CallV:
+					switch shortName(x.Callee) {
+					case "parseResponse":
+						pc = x
+					case "(*etree.Document).Root":
+						if len(x.Args) == 1 {
+							find(x.Args[0], depth+1)
+						}
+					}
+				case *FieldV:
+					find(x.X, depth+1)
 				}
 			}
-			if parse == nil {
-				fail("the added element is the root of " + ap(rc.Args[0]) + ", which parseResponse did not produce on this path")
+			find(child, 0)
+			if pc == nil || provOf(t, child) != "raw" || len(pc.Args) == 0 {
+				fail("decryptAssertions adds " + ap(child) + " to the tree, which is not the root of a document the parse helper produced on this path")
 				continue
 			}
+			parse := &Event{Args: pc.Args, Seq: e.Seq}
+			var dec *Event
 			for _, u := range t.St.events {
 				if u.Kind == EvCall && u.Seq < parse.Seq && strings.HasSuffix(shortName(u.Callee), "(*types.EncryptedAssertion).DecryptBytes") && len(u.Res) > 0 && u.Res[0].Key() == parse.Args[0].Key() {
 					dec = u
